@@ -326,6 +326,7 @@ pub const HAZARD_FINDINGS: &[(&str, &[&str])] = &[
     ("wild_let", &["C07-wildcard-let-derive-name"]),
     ("const_fold", &["C05-same-column-merged", "C02-const-null-fold"]),
     ("dropped_key_join", &["C03-dropped-sort-key-join"]),
+    ("computed_key_join", &["C16-computed-sort-key-lowered-into-subpipeline"]),
     ("sort_key_rename", &["C12-sort-key-rename-panic", "C07-sort-key-rename-scope"]),
 ];
 
